@@ -367,7 +367,7 @@ func runShutScn(s *ShutScn) (o vh.Outcome) {
 	fetching := make(chan struct{}, 1)
 	uploading := make(chan struct{}, 1)
 	release := make(chan struct{})
-	fp.FetchHook = func(q *vh.FPRequest, w http.ResponseWriter, r *http.Request) bool {
+	fp.SetFetchHook(func(q *vh.FPRequest, w http.ResponseWriter, r *http.Request) bool {
 		if s.Phase == "listed" && q.ID == "slow" {
 			select {
 			case fetching <- struct{}{}:
@@ -376,8 +376,8 @@ func runShutScn(s *ShutScn) (o vh.Outcome) {
 			<-release
 		}
 		return false
-	}
-	fp.UploadHook = func(q *vh.FPRequest, w http.ResponseWriter, r *http.Request) bool {
+	})
+	fp.SetUploadHook(func(q *vh.FPRequest, w http.ResponseWriter, r *http.Request) bool {
 		if s.Phase == "uploading" && q.ID == "slow" {
 			select {
 			case uploading <- struct{}{}:
@@ -386,15 +386,15 @@ func runShutScn(s *ShutScn) (o vh.Outcome) {
 			time.Sleep(time.Duration(s.LatencyMs) * time.Millisecond)
 		}
 		return false
-	}
+	})
 	var listsFail atomic.Bool
-	fp.ListHook = func(w http.ResponseWriter, r *http.Request) bool {
+	fp.SetListHook(func(w http.ResponseWriter, r *http.Request) bool {
 		if listsFail.Load() {
 			http.Error(w, "pending list unavailable", http.StatusInternalServerError)
 			return true
 		}
 		return false
-	}
+	})
 	meta := vh.NewFakeMeta()
 	defer meta.Close()
 	var args []string
